@@ -81,7 +81,12 @@ def export(repo="/repo", verbose=False):
     dest = os.path.join(CACHE, key)
     meta_p = os.path.join(dest, "meta.json")
     if os.path.exists(meta_p):
-        return dest, json.load(open(meta_p))
+        try:
+            meta = json.load(open(meta_p))
+            os.utime(meta_p, None)   # mark as recently used
+            return dest, meta
+        except (OSError, ValueError):
+            pass
     build_driver()
     lock = open(os.path.join(CACHE, "export.lock"), "w")
     fcntl.flock(lock, fcntl.LOCK_EX)
@@ -129,15 +134,21 @@ def export(repo="/repo", verbose=False):
         lock.close()
 
 
-def _prune(keep, n=6):
+def _prune(keep, n=8, min_age_s=1800):
+    """drop old cache entries: beyond the n most recently *used* ones and not used for half an hour (checks of
+    several properties and the self-test's mutants run concurrently and must not lose their entry while loading)"""
     ents = []
+    now = time.time()
     for d in os.listdir(CACHE):
         p = os.path.join(CACHE, d)
-        if os.path.isdir(p) and os.path.exists(os.path.join(p, "meta.json")):
-            ents.append((os.path.getmtime(p), p))
+        mp = os.path.join(p, "meta.json")
+        if os.path.isdir(p) and os.path.exists(mp):
+            ents.append((os.path.getmtime(mp), p))
+        elif os.path.isdir(p) and d.startswith("tmp-") and now - os.path.getmtime(p) > 3600:
+            shutil.rmtree(p, ignore_errors=True)   # left behind by an interrupted export
     ents.sort(reverse=True)
-    for _, p in ents[n:]:
-        if p != keep:
+    for m, p in ents[n:]:
+        if p != keep and now - m > min_age_s:
             shutil.rmtree(p, ignore_errors=True)
 
 
@@ -182,8 +193,16 @@ class Facts:
 
 
 def load(repo="/repo"):
-    d, meta = export(repo)
-    return Facts(d, meta, os.path.abspath(repo))
+    last = None
+    for attempt in range(3):
+        d, meta = export(repo)
+        try:
+            return Facts(d, meta, os.path.abspath(repo))
+        except (OSError, ValueError) as e:
+            # the cache entry vanished or is incomplete (concurrent pruning): export again
+            last = e
+            shutil.rmtree(d, ignore_errors=True)
+    raise RuntimeError("fact files unreadable after re-export: %s" % last)
 
 
 if __name__ == "__main__":
